@@ -165,6 +165,14 @@ Definition exception_catch (filters : list nat) (st : mstate) : mstate * catch_r
            end
        end.
 
+(* exception_throw around the formatting of the message: the state the Show methods of the arguments
+   run on, and the state after `print_to_with(e->msg, ..)` returned and the object is in place
+   (ExnTie.v proves that the translated C function is exactly this pair) *)
+Definition throw_pre (o : nat) (st : mstate) : mstate :=
+  if oaf then st else MS (Some o) (msg st) (bufs st) (active st).
+Definition throw_post (o m : nat) (s1 : mstate) : mstate :=
+  MS (if oaf then Some o else obj s1) (set_msg m (msg s1)) (bufs s1) (active s1).
+
 (* Execution of a program tree by the macro expansion. *)
 Fixpoint mrun (p : prog) (st : mstate) : list event * mout * mstate :=
   match p with
@@ -180,11 +188,10 @@ Fixpoint mrun (p : prog) (st : mstate) : list event * mout * mstate :=
       (* exception_throw: [e->obj = obj;] print_to_with(e->msg, 0, fmt, args); [e->obj = obj;] jump or die.
          Formatting shows the arguments first (the harness puts the %$ argument in front, so the own
          message then overwrites from position 0 whatever a nested throw left: set_msg). *)
-      let st0 := if oaf then st else MS (Some o) (msg st) (bufs st) (active st) in
-      let '(t1, r1, s1) := mrun f st0 in
+      let '(t1, r1, s1) := mrun f (throw_pre o st) in
       match r1 with
       | MNormal =>
-          let s2 := MS (if oaf then Some o else obj s1) (set_msg m (msg s1)) (bufs s1) (active s1) in
+          let s2 := throw_post o m s1 in
           (t1, jump_or_die s2, s2)
       | _ => (t1, r1, s1)              (* an exception escaped from the Show method: this throw never happens *)
       end
